@@ -298,9 +298,10 @@ func (l *List) Accept(sta funcGen.Stack[Value]) (*List, error) {
 		return nil, err
 	}
 	return NewListFromIterable(func(st funcGen.Stack[Value]) iterator.Producer[Value] {
-		return iterator.FilterAuto[Value](l.iterable(funcGen.NewEmptyStack[Value]()), func() func(v Value) (bool, error) {
+		return panicOnCaller(iterator.FilterAuto[Value](l.iterable(funcGen.NewEmptyStack[Value]()), func() func(v Value) (bool, error) {
 			s := funcGen.NewEmptyStack[Value]()
-			return func(v Value) (bool, error) {
+			return func(v Value) (accepted bool, err error) {
+				defer recoverAsError(&err)
 				eval, err := f.Eval(s, v)
 				if err != nil {
 					return false, err
@@ -310,7 +311,7 @@ func (l *List) Accept(sta funcGen.Stack[Value]) (*List, error) {
 				}
 				return false, fmt.Errorf("function in accept does not return a bool")
 			}
-		})
+		}))
 	}), nil
 }
 
@@ -320,12 +321,13 @@ func (l *List) Map(sta funcGen.Stack[Value]) (*List, error) {
 		return nil, err
 	}
 	return NewListFromSizedIterable(func(st funcGen.Stack[Value]) iterator.Producer[Value] {
-		return iterator.MapAuto[Value, Value](l.iterable(funcGen.NewEmptyStack[Value]()), func() func(i int, v Value) (Value, error) {
+		return panicOnCaller(iterator.MapAuto[Value, Value](l.iterable(funcGen.NewEmptyStack[Value]()), func() func(i int, v Value) (Value, error) {
 			s := funcGen.NewEmptyStack[Value]()
-			return func(i int, v Value) (Value, error) {
+			return func(i int, v Value) (mapped Value, err error) {
+				defer recoverAsError(&err)
 				return f.Eval(s, v)
 			}
-		})
+		}))
 	}, l.size), nil
 }
 
@@ -400,7 +402,7 @@ func (l *List) Merge(sta funcGen.Stack[Value]) (*List, error) {
 	}
 	if otherList, ok := other.ToList(); ok {
 		return NewListFromIterable(func(st funcGen.Stack[Value]) iterator.Producer[Value] {
-			return iterator.Merge(l.iterable(funcGen.NewEmptyStack[Value]()), otherList.iterable(funcGen.NewEmptyStack[Value]()),
+			return iterator.Merge(recoverInProducer(l.iterable(funcGen.NewEmptyStack[Value]())), recoverInProducer(otherList.iterable(funcGen.NewEmptyStack[Value]())),
 				func(a, b Value) (bool, error) {
 					st.Push(a)
 					st.Push(b)
